@@ -58,6 +58,32 @@ CLAIMED = {
 NOT_YET = "check not built yet in this session (DESIGN.md §9 build order); will be claimed when its TLA+ spec and conformance harness land"
 
 checks, na, engines = [], [], {}
+# what was added after the first full pass (DESIGN 10.12, 10.13): appended to the level text of each property
+ADDED = {
+ "C01": " Also: whole run_simulator runs with one operator per container (branchy DAGs, merges of 40-300 operators), builders whose parent lists the caller goes on using (the specification's workload is what the builder meant).",
+ "C02": " Also: refusals after which the caller goes on (GoOn), kills from outside (ExtKill), and the operator states as the caller finds them after run_simulator has returned.",
+ "C03": " Also: the state a refused call leaves behind when the caller goes on (action GoOn, one pool), kills from outside, whole simulations under the priority policy with float RAM sizes and the simulator's own memory report.",
+ "C04": " Also: GoOn / ExtKill, memory moving in quarter-megabyte steps (10 240 and 81 920 ticks per second), whole simulations over random valid parameter sets (tick rates up to 100 000) and under priority with overcommit.",
+ "C05": " Also: the same Segment object used twice in an operator, assignments whose operator order differs from the iteration order, optional Assignment flags.",
+ "C09": " Also: actions GoOn and ExtKill (Container.kill from outside: failure result naming that error by the next tick, allocation returned once) in the model, in driver B, and replayed spec -> code.",
+ "C10": " Also: TraceTiming.CheckSusp decides the length of a write-out exactly at any tick rate up to 100 000 per second (rates that do not divide a power of ten included); a Suspend of a container killed from outside is refused (defect D12, fixed).",
+ "C11": " Also: pools of a few dozen megabytes at 10 240 / 81 920 ticks per second, where absolute tolerances and rounded scores change the victims.",
+ "C06": " Also: more than 10 000 completions of one class (lean recording), tick rates of 200-1000, container priorities that differ from the pipeline's, runs that end inside a write-out, kills from outside.",
+ "C07": " Also: parameter sets with shuffled key order (run_simulator builds the generator itself), seed 0 against the default seed, branchy DAG scenarios under hash seeds.",
+ "C08": " Also: EVERY initial state TLC generates for the MC_Sched configurations is run through the real policy and executor (exhaustive_sched.py); the starter the documented way through the command line (init -s, run -i); kills from outside in the policy model (KillFromOutside) and in the runs; merges of hundreds of operators; pools filled to the last CPU.",
+ "C12": " Also: every initial state of the model configurations run in the real code; query herds; generator-driven runs over random valid parameter sets; kills from outside.",
+ "C16": " Also: every initial state of the model configuration run in the real code; generator-driven runs with RAM sizes such as 12.3 GB; pools filled to the last CPU with a retry that asks for exactly what is left.",
+ "C17": " Also: every initial state of the model configurations run in the real code; DAGs whose branches finish out of order on several pools; kills from outside (model and runs).",
+ "C18": " Also: every initial state of the model configurations run in the real code; more than 1 000 pipelines known to one scheduler; kills from outside (model and runs).",
+ "C13": " Also: `eudoxia run P` against `eudoxia gentrace P F` + `eudoxia run P -w F` through the command line, one reader used for a second replay, consumers that extend the list they were handed, tick rates of 30 000-99 999.",
+ "C14": " Also: the structure the builder meant (not what the objects say after the builder reused its lists), scaling laws given as callables, a writer that must accept every well-formed workload.",
+ "C15": " Also: more than 2^16 pipelines from one generator, tail draws played by the RNG proxy (negative waiting times and operator counts), consumers that mutate the returned list, and the probability clauses on whole run_simulator runs.",
+ "C19": " Also: runs of one to three ticks with no call due before the end, optional flags in the replies.",
+ "C20": " Also: the tools through the command line, the real sensitivity-sample command (it derives the seeds), stale output files, header-only traces, times spelled 7e-05, arrival x rate above 2^29, a second interpreter with another hash seed.",
+}
+for k, v in ADDED.items():
+    CLAIMED[k]["text"] += v
+
 for p in props:
     pid = p["id"]
     c = CLAIMED.get(pid)
